@@ -177,7 +177,7 @@ def model_tree(t):
     return {"ds": {"kind": "num", "dtype": d["dtype"], "shape": d["shape"], "x": d["x"]}}
 
 
-def run(ctx):
+def _run_main(ctx):
     import h5raw
     from core import run_graph_ops
     rng = ctx.rng
@@ -239,3 +239,11 @@ def run(ctx):
     finally:
         import shutil
         shutil.rmtree(tmpdir, ignore_errors=True)
+
+
+def run(ctx):
+    _run_main(ctx)
+    # history independence: the same call on a live graph object with a history of edits / calls and on a twin rebuilt
+    # from its public state (harness/history.py)
+    import history
+    history.run(ctx, ["file_rt", "path_rt"], {"file_rt": "read(write(g)) of a graph object with a history", "path_rt": "read(write(g)) through a path of a graph object with a history"})
